@@ -203,12 +203,34 @@ class SymStr(object):
         pat = self._lift(suffix)
         return self.ex.decide(self._match_at(len(self.chars) - len(pat), pat))
 
-    def find(self, sub, start=0):
+    def find(self, sub, start=0, end=None):
         pat = self._lift(sub)
-        for i in range(start, len(self.chars) - len(pat) + 1):
+        n = len(self.chars) if end is None else min(end, len(self.chars))
+        for i in range(max(start, 0), n - len(pat) + 1):
             if self.ex.decide(self._match_at(i, pat)):
                 return i
         return -1
+
+    def splitlines(self, keepends=False):
+        if keepends:
+            raise llsym.Unsupported('splitlines(keepends=True)')
+        out, cur = [], []
+        chars = self.chars
+        i, n = 0, len(chars)
+        while i < n:
+            c = chars[i]
+            if self._in_set(c, (10, 11, 12, 13, 0x1c, 0x1d, 0x1e, 0x85)):
+                # '\r\n' counts as one line break
+                if self._in_set(c, (13,)) and i + 1 < n and self._in_set(chars[i + 1], (10,)):
+                    i += 1
+                out.append(self._mk(cur))
+                cur = []
+            else:
+                cur.append(c)
+            i += 1
+        if cur:
+            out.append(self._mk(cur))
+        return out
 
     def rfind(self, sub):
         pat = self._lift(sub)
@@ -498,8 +520,13 @@ class SymRegex(object):
     (non-capturing semantics: only the boolean result is provided), ^, $ with Python's meaning
     (end of string or before a final newline), IGNORECASE on ASCII.  Anything else -> Unsupported."""
 
-    def __init__(self, compiled):
+    def __init__(self, compiled, end_policy=None, groups=None):
+        """end_policy: 'shortest' | 'longest' -- which end Python's backtracking picks for a given start
+        (needed by finditer/sub/search-with-span; the caller states it per pattern and validates it against
+        the real `re` on concrete strings with validate()); groups: callable(SymMatch) -> tuple of groups."""
         import re
+        self.end_policy = end_policy
+        self.groups_fn = groups
         self.rx = compiled
         try:
             import re._parser as sre_parse
@@ -641,67 +668,292 @@ class SymRegex(object):
             return z3.Not(r) if neg else r
         raise llsym.Unsupported('regex label %r' % (label,))
 
-    def _run(self, s, start_positions):
-        """z3 Bool: the pattern matches starting at one of start_positions (prefix match)."""
+    def _concrete_pred(self, label, code):
+        """the character predicate on a concrete code point (same meaning as _char_pred)"""
         import re
-        s0, acc = self._build()
+        kind, av = label
+        icase = bool(self.flags & re.IGNORECASE)
+
+        def eqc(x):
+            if icase and (65 <= x <= 90 or 97 <= x <= 122):
+                return code == (x | 32) or code == (x & ~32)
+            return code == x
+        if kind == 'lit':
+            return eqc(av)
+        if kind == 'notlit':
+            return not eqc(av)
+        if kind == 'any':
+            return True if (self.flags & re.DOTALL) else code != 10
+        if kind == 'in':
+            neg, hit = False, False
+            for op, a_ in av:
+                n_ = str(op)
+                if n_ == 'NEGATE':
+                    neg = True
+                elif n_ == 'LITERAL':
+                    hit = hit or eqc(a_)
+                elif n_ == 'RANGE':
+                    lo, hi = a_
+                    r = lo <= code <= hi
+                    if icase and not r:
+                        for (l2, h2, d) in ((65, 90, 32), (97, 122, -32)):
+                            a0, b0 = max(lo, l2), min(hi, h2)
+                            if a0 <= b0 and a0 + d <= code <= b0 + d:
+                                r = True
+                    hit = hit or r
+                elif n_ == 'CATEGORY':
+                    cat = str(a_)
+                    dig = 48 <= code <= 57
+                    ws = code in WS
+                    word = dig or 65 <= code <= 90 or 97 <= code <= 122 or code == 95
+                    table = {'CATEGORY_DIGIT': dig, 'CATEGORY_NOT_DIGIT': not dig, 'CATEGORY_SPACE': ws,
+                             'CATEGORY_NOT_SPACE': not ws, 'CATEGORY_WORD': word, 'CATEGORY_NOT_WORD': not word}
+                    if cat not in table:
+                        raise llsym.Unsupported('regex category ' + cat)
+                    hit = hit or table[cat]
+                else:
+                    raise llsym.Unsupported('regex class item ' + n_)
+            return (not hit) if neg else hit
+        raise llsym.Unsupported('regex label %r' % (label,))
+
+    def _nfa(self):
+        if getattr(self, '_nfa_cache', None) is None:
+            s0, acc = self._build()
+            eps = [(a, b) for a, l, b in self.trans if l is None]
+            ats = [(a, l[1], b) for a, l, b in self.trans if l is not None and l[0] == 'at']
+            chs = [(a, l, b) for a, l, b in self.trans if l is not None and l[0] != 'at']
+            self._nfa_cache = (s0, acc, eps, ats, chs)
+        return self._nfa_cache
+
+    def _run(self, s, start_positions):
+        """z3 Bool (or python bool folded into one): the pattern matches starting at one of start_positions
+        (prefix match).  Conditions over concrete characters are folded as Python bools."""
+        import re
+        s0, acc, eps, ats, chs = self._nfa()
         chars = s.chars
         n = len(chars)
         multiline = bool(self.flags & re.MULTILINE)
-        eps = [(a, b) for a, l, b in self.trans if l is None]
-        ats = [(a, l[1], b) for a, l, b in self.trans if l is not None and l[0] == 'at']
-        chs = [(a, l, b) for a, l, b in self.trans if l is not None and l[0] != 'at']
-        F = z3.BoolVal(False)
+        T, Fz = z3.BoolVal(True), z3.BoolVal(False)
+
+        def lift(x):
+            return x if not isinstance(x, bool) else (T if x else Fz)
+
+        def or_(x, y):
+            if x is True or y is True:
+                return True
+            if x is False:
+                return y
+            if y is False:
+                return x
+            return z3.Or(x, y)
+
+        def and_(x, y):
+            if x is False or y is False:
+                return False
+            if x is True:
+                return y
+            if y is True:
+                return x
+            return z3.And(x, y)
+
+        def is_nl(pos):
+            c = chars[pos]
+            return (c == 10) if isinstance(c, int) else (llsym.bv(c, CW) == 10)
+
+        def word(pos):
+            if pos < 0 or pos >= n:
+                return False
+            c = chars[pos]
+            if isinstance(c, int):
+                return 48 <= c <= 57 or 65 <= c <= 90 or 97 <= c <= 122 or c == 95
+            cz = llsym.bv(c, CW)
+            return z3.Or(z3.And(z3.UGE(cz, 48), z3.ULE(cz, 57)), z3.And(z3.UGE(cz, 65), z3.ULE(cz, 90)),
+                         z3.And(z3.UGE(cz, 97), z3.ULE(cz, 122)), cz == 95)
 
         def at_cond(kind, pos):
             if kind in ('AT_BEGINNING', 'AT_BEGINNING_STRING'):
                 if kind == 'AT_BEGINNING' and multiline and pos > 0:
-                    return llsym.bv(chars[pos - 1], CW) == 10
-                return z3.BoolVal(pos == 0)
+                    return is_nl(pos - 1)
+                return pos == 0
             if kind == 'AT_END':
                 if pos == n:
-                    return z3.BoolVal(True)
+                    return True
                 if multiline:
-                    return llsym.bv(chars[pos], CW) == 10
+                    return is_nl(pos)
                 if pos == n - 1:
-                    return llsym.bv(chars[pos], CW) == 10
-                return F
+                    return is_nl(pos)
+                return False
             if kind == 'AT_END_STRING':
-                return z3.BoolVal(pos == n)
+                return pos == n
+            if kind in ('AT_BOUNDARY', 'AT_NON_BOUNDARY'):
+                x, y = word(pos - 1), word(pos)
+                if isinstance(x, bool) and isinstance(y, bool):
+                    b_ = x != y
+                else:
+                    b_ = z3.Xor(lift(x), lift(y))
+                if kind == 'AT_BOUNDARY':
+                    return b_
+                return (not b_) if isinstance(b_, bool) else z3.Not(b_)
             raise llsym.Unsupported('regex assertion ' + kind)
 
         def closure(act, pos):
-            # epsilon / assertion closure: fixpoint (at most nstates rounds)
             act = list(act)
+            conds = {}
             for _ in range(self.nstates + 1):
-                new = list(act)
+                changed = False
                 for a, b in eps:
-                    if not z3.is_false(act[a]):
-                        new[b] = z3.simplify(z3.Or(new[b], act[a]))
+                    if act[a] is not False and act[b] is not True:
+                        nv = or_(act[b], act[a])
+                        if nv is not act[b] and not (not isinstance(nv, bool) and not isinstance(act[b], bool) and z3.eq(nv, act[b])):
+                            if isinstance(nv, bool) or isinstance(act[b], bool) or not _subsumed(act[b], act[a]):
+                                act[b] = nv
+                                changed = True
                 for a, kind, b in ats:
-                    if not z3.is_false(act[a]):
-                        new[b] = z3.simplify(z3.Or(new[b], z3.And(act[a], at_cond(kind, pos))))
-                same = all(z3.eq(x, y) for x, y in zip(new, act))
-                act = new
-                if same:
+                    if act[a] is not False and act[b] is not True:
+                        if (kind, pos) not in conds:
+                            conds[(kind, pos)] = at_cond(kind, pos)
+                        t = and_(act[a], conds[(kind, pos)])
+                        if t is False:
+                            continue
+                        nv = or_(act[b], t)
+                        if nv is not act[b] and (isinstance(nv, bool) or isinstance(act[b], bool) or not _subsumed(act[b], t)):
+                            act[b] = nv
+                            changed = True
+                if not changed:
                     break
             return act
 
-        result = F
-        active = [F] * self.nstates
+        def _subsumed(cur, add):
+            """cheap syntactic check that `add` is already a disjunct of `cur` (keeps the fixpoint finite)"""
+            if z3.eq(cur, add):
+                return True
+            if z3.is_or(cur):
+                return any(z3.eq(c_, add) for c_ in cur.children())
+            return False
+
+        collect = getattr(self, '_collect', None)
+        result = False
+        active = [False] * self.nstates
         for pos in range(n + 1):
             if pos in start_positions:
-                active[s0] = z3.BoolVal(True)
+                active[s0] = True
+            if all(x is False for x in active):
+                if not any(p_ > pos for p_ in start_positions):
+                    break
+                continue
             active = closure(active, pos)
-            result = z3.simplify(z3.Or(result, active[acc]))
+            result = or_(result, active[acc])
+            if collect is not None:
+                collect.append((pos, z3.simplify(lift(active[acc]))))
             if pos == n:
                 break
-            nxt = [F] * self.nstates
+            nxt = [False] * self.nstates
+            c = chars[pos]
             for a, l, b in chs:
-                if not z3.is_false(active[a]):
-                    nxt[b] = z3.simplify(z3.Or(nxt[b], z3.And(active[a], self._char_pred(l, chars[pos]))))
-            active = nxt
-        return result
+                if active[a] is False:
+                    continue
+                if isinstance(c, int):
+                    pr = self._concrete_pred(l, c)
+                else:
+                    pr = self._char_pred(l, c)
+                nxt[b] = or_(nxt[b], and_(active[a], pr))
+            active = [z3.simplify(x) if not isinstance(x, bool) else x for x in nxt]
+            active = [(True if z3.is_true(x) else (False if z3.is_false(x) else x)) if not isinstance(x, bool) else x for x in active]
+        return z3.simplify(lift(result))
+
+    def _ends(self, s, i):
+        """[(j, cond)] : the pattern matches exactly s[i:j] (cond is a z3 Bool, never syntactically false)"""
+        saved = getattr(self, '_collect', None)
+        self._collect = []
+        try:
+            self._run(s, (i,))
+            got = self._collect
+        finally:
+            self._collect = saved
+        return [(j, c) for j, c in got if j >= i and not z3.is_false(c)]
+
+    def _first_match(self, s, pos):
+        """leftmost match at or after pos, end chosen by end_policy; returns (i, j) or None (forks through decide)"""
+        if self.end_policy is None:
+            raise llsym.Unsupported('finditer/sub on SymStr needs an end policy for %r' % self.pattern)
+        n = len(s.chars)
+        ex = s.ex
+        for i in range(pos, n + 1):
+            ends = self._ends(s, i)
+            if not ends:
+                continue
+            anyc = z3.simplify(z3.Or(*[c for j, c in ends]))
+            if z3.is_false(anyc) or not ex.decide(anyc):
+                continue
+            order = sorted(ends, key=lambda jc: jc[0], reverse=(self.end_policy == 'longest'))
+            for j, c in order[:-1]:
+                if ex.decide(c):
+                    return i, j
+            return i, order[-1][0]
+        return None
+
+    def finditer(self, s, *a):
+        if not isinstance(s, SymStr):
+            return self.rx.finditer(s, *a)
+        out = []
+        pos = 0
+        n = len(s.chars)
+        while pos <= n:
+            m = self._first_match(s, pos)
+            if m is None:
+                break
+            i, j = m
+            out.append(SymMatch(self, s, i, j))
+            pos = j if j > i else i + 1
+        return iter(out)
+
+    def sub(self, repl, s, count=0):
+        if not isinstance(s, SymStr) and not callable(repl):
+            return self.rx.sub(repl, s, count)
+        pieces = []
+        last = 0
+        for m in (self.finditer(s) if isinstance(s, SymStr) else self.rx.finditer(s)):
+            pieces.append(s[last:m.start()])
+            r = repl(m) if callable(repl) else repl
+            if not callable(repl) and isinstance(repl, str) and '\\' in repl:
+                raise llsym.Unsupported('backreferences in a replacement template')
+            pieces.append(r)
+            last = m.end()
+        pieces.append(s[last:])
+        res = ''
+        for p_ in pieces:
+            res = res + p_ if not (isinstance(res, str) and res == '') else p_
+        return res
+
+    def findall(self, s, *a):
+        if not isinstance(s, SymStr):
+            return self.rx.findall(s, *a)
+        return [m.group() for m in self.finditer(s)]
+
+    def validate(self, samples):
+        """differential check of the NFA + end policy against the real `re` on concrete strings; returns disagreements"""
+        bad = []
+
+        class _Ex(object):           # a trivial explorer: conditions are concrete
+            def decide(self, c):
+                c = z3.simplify(c) if not isinstance(c, bool) else c
+                if isinstance(c, bool):
+                    return c
+                if z3.is_true(c):
+                    return True
+                if z3.is_false(c):
+                    return False
+                raise llsym.Unsupported('validate(): non-constant condition')
+        for text in samples:
+            want = [(m.start(), m.end()) for m in self.rx.finditer(text)]
+            ss = SymStr(_Ex(), [ord(ch) for ch in text])
+            try:
+                got = [(m.start(), m.end()) for m in self.finditer(ss)]
+            except llsym.Unsupported as e:
+                got = 'unsupported: %s' % e
+            if got != want:
+                bad.append((text, want, got))
+        return bad
 
     def match(self, s, *a):
         if not isinstance(s, SymStr):
@@ -714,6 +966,9 @@ class SymRegex(object):
     def search(self, s, *a):
         if not isinstance(s, SymStr):
             return self.rx.search(s, *a)
+        if self.end_policy is not None:
+            m = self._first_match(s, a[0] if a else 0)
+            return SymMatch(self, s, m[0], m[1]) if m else None
         t = self._run(s, tuple(range(len(s.chars) + 1)))
         if z3.is_false(t):
             return None
@@ -724,6 +979,41 @@ class SymRegex(object):
 
 
 F_CONST = z3.BoolVal(False)
+
+
+class SymMatch(object):
+    """match object over a SymStr with a concrete span"""
+
+    def __init__(self, rx, s, i, j):
+        self.rx, self.string, self.i, self.j = rx, s, i, j
+
+    def __bool__(self):
+        return True
+
+    def start(self, g=0):
+        if g:
+            raise llsym.Unsupported('start(group) on a symbolic match')
+        return self.i
+
+    def end(self, g=0):
+        if g:
+            raise llsym.Unsupported('end(group) on a symbolic match')
+        return self.j
+
+    def span(self):
+        return (self.i, self.j)
+
+    def group(self, *gs):
+        if not gs or gs == (0,):
+            return self.string[self.i:self.j]
+        allg = self.groups()
+        r = tuple(allg[g - 1] for g in gs)
+        return r[0] if len(r) == 1 else r
+
+    def groups(self):
+        if self.rx.groups_fn is None:
+            raise llsym.Unsupported('groups of %r on a symbolic match' % self.rx.pattern)
+        return self.rx.groups_fn(self)
 
 
 class _M(object):
@@ -858,3 +1148,76 @@ def sym_hex(x):
         nib = z3.ZeroExt(CW - 4, z3.Extract(3, 0, z3.LShR(t, 4 * k)))
         chars.append(z3.If(z3.ULT(nib, 10), nib + 48, nib + 87))
     return Tok(SymStr(ex, chars))
+
+
+# -----------------------------------------------------------------------------------------
+# lifting the str constants of a function under test (the bytecode stays the real one)
+
+class LStr(str):
+    """a str constant made aware of symbolic operands: `x in CONST`, `CONST % args`, `CONST + x`, `CONST.join(xs)`"""
+
+    def __contains__(self, item):
+        if isinstance(item, SymStr):
+            if len(item) == 0:
+                return True
+            n, k = len(self), len(item)
+            alts = [z3.And(*[llsym.bv(item.chars[t], CW) == ord(self[i + t]) for t in range(k)]) for i in range(n - k + 1)]
+            return item.ex.decide(z3.Or(*alts)) if alts else False
+        return str.__contains__(self, item)
+
+    def __mod__(self, arg):
+        args = arg if isinstance(arg, tuple) else (arg,)
+        if not any(isinstance(a, SymStr) for a in args):
+            return str.__mod__(self, arg)
+        import re
+        parts = re.split(r'(%[sdr%])', str(self))
+        out = ''
+        it = iter(args)
+        for p_ in parts:
+            if p_ == '%%':
+                piece = '%'
+            elif p_ in ('%s', '%d', '%r'):
+                a = next(it)
+                if isinstance(a, SymStr):
+                    if p_ != '%s':
+                        raise llsym.Unsupported('%r of a symbolic str' % p_)
+                    piece = a
+                else:
+                    piece = p_ % (a,)
+            else:
+                piece = p_
+            out = (out + piece) if not (isinstance(out, str) and out == '') else piece
+        return out
+
+    def __add__(self, o):
+        if isinstance(o, SymStr):
+            return o.__radd__(str(self))
+        return str.__add__(self, o)
+
+    def join(self, items):
+        items = list(items)
+        if not any(isinstance(x, SymStr) for x in items):
+            return str.join(self, items)
+        out = ''
+        for k, x in enumerate(items):
+            if k:
+                out = (out + str(self)) if str(self) else out
+            out = (out + x) if not (isinstance(out, str) and out == '') else x
+        return out
+
+
+def lift_consts(fn):
+    """the same function object code with its str constants replaced by LStr (recursively for nested code objects)"""
+    import types
+
+    def lift_code(code):
+        consts = []
+        for c in code.co_consts:
+            if isinstance(c, str):
+                consts.append(LStr(c))
+            elif isinstance(c, types.CodeType):
+                consts.append(lift_code(c))
+            else:
+                consts.append(c)
+        return code.replace(co_consts=tuple(consts))
+    return types.FunctionType(lift_code(fn.__code__), fn.__globals__, fn.__name__, fn.__defaults__, fn.__closure__)
